@@ -159,4 +159,55 @@ theorem argmaxL_ge (f : Nat → α) (l : List Nat) : ∀ x ∈ l, f x ≤ f (arg
     · exact h1
     · exact h2 x hx
 
+/-! ### argmax (last maximiser) -/
+theorem argmaxLastFrom_mem (f : Nat → α) (l : List Nat) (b : Nat) :
+    argmaxLastFrom f l b = b ∨ argmaxLastFrom f l b ∈ l := by
+  induction l generalizing b with
+  | nil => simp [argmaxLastFrom]
+  | cons s l ih =>
+    simp only [argmaxLastFrom]
+    split
+    · rcases ih b with h | h <;> simp [h]
+    · rcases ih s with h | h <;> simp [h]
+
+theorem argmaxLastFrom_ge (f : Nat → α) (l : List Nat) (b : Nat) :
+    f b ≤ f (argmaxLastFrom f l b) ∧ ∀ x ∈ l, f x ≤ f (argmaxLastFrom f l b) := by
+  induction l generalizing b with
+  | nil => simp [argmaxLastFrom]
+  | cons s l ih =>
+    simp only [argmaxLastFrom]
+    split
+    · rename_i h
+      obtain ⟨h1, h2⟩ := ih b
+      refine ⟨h1, ?_⟩
+      intro x hx
+      rcases List.mem_cons.1 hx with rfl | hx
+      · exact le_trans (le_of_lt h) h1
+      · exact h2 x hx
+    · rename_i h
+      obtain ⟨h1, h2⟩ := ih s
+      refine ⟨le_trans (not_lt.1 h) h1, ?_⟩
+      intro x hx
+      rcases List.mem_cons.1 hx with rfl | hx
+      · exact h1
+      · exact h2 x hx
+
+theorem argmaxLast_mem (f : Nat → α) (l : List Nat) (h : l ≠ []) : argmaxLast f l ∈ l := by
+  cases l with
+  | nil => exact absurd rfl h
+  | cons s l =>
+    simp only [argmaxLast]
+    rcases argmaxLastFrom_mem f l s with h | h <;> simp [h]
+
+theorem argmaxLast_ge (f : Nat → α) (l : List Nat) : ∀ x ∈ l, f x ≤ f (argmaxLast f l) := by
+  cases l with
+  | nil => simp
+  | cons s l =>
+    intro x hx
+    simp only [argmaxLast]
+    obtain ⟨h1, h2⟩ := argmaxLastFrom_ge f l s
+    rcases List.mem_cons.1 hx with rfl | hx
+    · exact h1
+    · exact h2 x hx
+
 end Skc
